@@ -290,7 +290,9 @@ def finish(ctx, level='proof', rule='', exhaustive=None, extra_cov=None):
     for o in failed:
         k = match_known(ctx.pid, o)
         if k:
-            known_lines.append('KNOWN-FINDING: property=%s %s' % (ctx.pid, k['what']))
+            line = 'KNOWN-FINDING: property=%s %s' % (ctx.pid, k['what'])
+            if line not in known_lines:
+                known_lines.append(line)
         else:
             violations.append(o)
     replay_paths = []
